@@ -6,6 +6,6 @@ Extraction "C04_m.ml" vec_of vfill vdot v_op_mul vcross vnorm vadd vsub vadd_ass
   m_plus m_minus m_product_s m_product m_product_v m_division square symmetric antisymmetric diagonal
   transpose trace m_norm sub_matrix_int sub_matrix m_op_plus m_op_minus m_op_mul m_op_mul_v m_op_mul_s m_op_div
   m_add_assign m_sub_assign s_mul_m v_mul_m m_eq outer row_mat col_mat wf_mat wf_vec
-  v_resize v_assign v_set v_at v_copy v_assign_from v_zero v_default
+  v_resize v_assign v_set v_at v_copy v_assign_from v_zero v_default v_normalized v_normalize
   m_resize m_assign m_set m_copy m_assign_from m_zero m_default
-  life_m life_v m_mut v_mut Z.of_nat Z.to_nat.
+  life_m life_v m_mut v_mut life_step life_run Z.of_nat Z.to_nat.
